@@ -80,16 +80,23 @@ async fn scenario(q: usize, before_stall: bool, id: u64) -> Out {
                     Err(_) => break,
                 };
                 let batch = left.min(80);
+                let mut unanswered = 0;
                 for _ in 0..batch {
                     // Ok is sent before the socket is queued, so it normally arrives; a missing Ok is not
-                    // what this property is about
+                    // what this property is about (two unanswered opens in a row: stop queueing on this connection)
                     match c.open(Frame::RegisterSubscriber(SubscriberPayload { topic: tn_a.clone(), retention_policy: 0, operations: vec![] }), Duration::from_secs(3)).await {
                         Ok((s, Some(Frame::Ok))) => {
                             oks += 1;
+                            unanswered = 0;
                             streams.push(s);
                         }
                         Ok((s, _)) => streams.push(s),
-                        Err(_) => {}
+                        Err(_) => {
+                            unanswered += 1;
+                            if unanswered >= 2 {
+                                break;
+                            }
+                        }
                     }
                 }
                 left -= batch;
@@ -170,10 +177,50 @@ async fn scenario(q: usize, before_stall: bool, id: u64) -> Out {
     };
     let res = tokio::time::timeout(Duration::from_secs(12), fut).await;
     let took = t1.elapsed().as_millis();
+    // … and also for the clients that queued up on A: through the connection that sent the *last* registrations
+    let tn_b = TopicName::try_from(topic_b.as_str()).unwrap();
+    let mut via_queued: Option<String> = None;
+    if let (Ok(Ok(())), Some(qc)) = (&res, extra_conns.last()) {
+        let probe = async {
+            let (mut sb, r) = qc.open(Frame::RegisterSubscriber(SubscriberPayload { topic: tn_b.clone(), retention_policy: 0, operations: vec![] }), Duration::from_secs(8)).await.map_err(|e| format!("opening a subscriber on topic B: {e}"))?;
+            if r != Some(Frame::Ok) {
+                return Err(format!("subscriber registration on topic B answered {:?}", r));
+            }
+            let (mut pb, r) = qc.open(Frame::RegisterPublisher(selium_protocol::PublisherPayload { topic: tn_b.clone(), retention_policy: 0, operations: vec![] }), Duration::from_secs(8)).await.map_err(|e| format!("opening a publisher on topic B: {e}"))?;
+            if r != Some(Frame::Ok) {
+                return Err(format!("publisher registration on topic B answered {:?}", r));
+            }
+            for n in 0..40u8 {
+                pb.send(Frame::Message(selium_protocol::MessagePayload { headers: None, message: bytes::Bytes::from(vec![b'Q', n]) })).await.map_err(|e| format!("send on B: {e}"))?;
+                if let Ok(Some(Ok(Frame::Message(m)))) = tokio::time::timeout(Duration::from_millis(250), sb.next()).await {
+                    if m.message.first() == Some(&b'Q') {
+                        return Ok::<(), String>(());
+                    }
+                }
+            }
+            Err("no round trip on topic B within 10 s".into())
+        };
+        match tokio::time::timeout(Duration::from_secs(30), probe).await {
+            Ok(Ok(())) => {}
+            Ok(Err(e)) => via_queued = Some(e),
+            Err(_) => via_queued = Some("probe did not finish within 30 s".into()),
+        }
+    }
     reader.abort();
     server.stop();
     drop(queued_streams);
     drop(extra_conns);
+    if let Some(e) = via_queued {
+        return Out::Violated(
+            "other-topic-blocked/through-queued-connection".into(),
+            format!(
+                "with topic A stalled and {} registrations queued on it ({}), fresh clients could use topic B, but a client whose connection carries the last of the queued registrations could not: {}",
+                q,
+                if before_stall { "sent before the stall" } else { "sent after the stall" },
+                e
+            ),
+        );
+    }
     match res {
         Ok(Ok(())) => Out::Held { b_roundtrip_ms: took, queued_ok },
         Ok(Err(e)) if e.starts_with("TRAFFIC-LEAK") => Out::Violated("traffic-leak".into(), e),
